@@ -1,13 +1,17 @@
 /-
   C04 model driver. Line protocol (S-expressions, one per line; see Wire.lean for the shapes):
     (schema …)         → ok                      -- the schema description used by later lines
-    (check (doc …))    → (r (spec valid|invalid rule…))
+    (check (doc …))    → (r (spec valid|invalid rule…) (model ok|fuel slot…))
+       slot := (s alt…)          -- one reported error; several alts = Go's map iteration picks one
+       alt  := (p|x "message" "L:C"…)   -- p primary, x secondary (all errors *before* the filter
+                                        -- of validator.go:82-91; the harness applies the filter)
   Anything else → bad-op.
 -/
 import ApiFu.Common.Sexp
 import ApiFu.Common.Loop
 import ApiFu.C04.Wire
 import ApiFu.C04.Spec
+import ApiFu.C04.Model
 
 open ApiFu ApiFu.C04
 
@@ -25,7 +29,13 @@ def handle (st : St) (line : String) : St × String :=
      | some S, some D =>
        let v := Spec.violated S D
        let spec := Sexp.node "spec" (Sexp.atom (if v.isEmpty then "valid" else "invalid") :: v.map Sexp.atom)
-       (st, toString (Sexp.node "r" [spec]))
+       let o := Model.allErrors S D
+       let alt (e : Err) : Sexp :=
+         Sexp.list (Sexp.atom (if e.secondary then "x" else "p") :: Sexp.str e.msg ::
+           e.locs.map fun l => Sexp.atom (toString l.line ++ ":" ++ toString l.col))
+       let model := Sexp.node "model" (Sexp.atom (if o.fuelOut then "fuel" else "ok") ::
+         o.slots.map fun sl => Sexp.node "s" (sl.alts.map alt))
+       (st, toString (Sexp.node "r" [spec, model]))
      | none, _ => (st, "no-schema")
      | _, none => (st, "bad-doc"))
   | _ => (st, "bad-op")
